@@ -268,3 +268,32 @@ def aes_property_agreement(ctx, rule: str) -> None:
     ctx.check(ok, rule, r, r.node, "reader slices salt then iv after the two bytes",
               f"reader slices {shown} instead of salt=[2:2+saltsize], iv=[2+saltsize:2+saltsize+ivsize] (a negative index such as [-ivsize:] takes the whole "
               "blob when ivsize is 0: properties with a salt but no IV are refused)", construct="aes salt/iv slices")
+
+
+def aes_flags_clear_accepted(ctx, rule: str) -> None:
+    """7zAES properties whose flag bits 7/6 are both clear consist of the cycles byte alone (no salt, no IV; the IV is zero): legal, and the
+    reader must not refuse them.  The arm of `first & 0xC0 ...` that stands for 'both clear' does not end in a raise."""
+    from .cfg import cfg_of
+    from . import q
+    r = ctx.prog.func("compressor", "AESDecompressor.__init__")
+    cfg = cfg_of(r.node)
+    tests = [t for t in cfg.nodes if t.kind == "test" and any(isinstance(x, ast.BinOp) and isinstance(x.op, ast.BitAnd) and isinstance(x.right, ast.Constant) and x.right.value == 0xC0
+                                                             for x in ast.walk(t.ast))]
+    if not tests:
+        ctx.ok(rule, "no flag test on bits 7/6: the flags-clear form is not singled out")
+        return
+    for t in tests:
+        cmp_ = t.ast
+        # which edge is 'both clear'
+        clear_edge = None
+        if isinstance(cmp_, ast.Compare) and isinstance(cmp_.comparators[0], ast.Constant) and cmp_.comparators[0].value == 0:
+            clear_edge = "true" if isinstance(cmp_.ops[0], ast.Eq) else "false"
+        elif isinstance(cmp_, ast.BinOp):
+            clear_edge = "false"
+        if clear_edge is None:
+            continue
+        e = next((s_ for s_ in t.succ if s_.kind == clear_edge), None)
+        ok = e is not None and not q.branch_always_raises(cfg, e)
+        ctx.check(ok, rule, r, cmp_, "7zAES properties without salt and IV (flags clear) are accepted",
+                  "the reader raises for 7zAES properties whose salt and IV flags are both clear (a one-byte property: cycles only, zero IV), which the format allows: "
+                  "an archive encrypted that way is refused with 'Wrong 7zAES properties'", construct="aes flags clear arm")
